@@ -118,9 +118,7 @@ class NameFixPass(ir.passes.InPlacePass):
         reserved_node_names: set[str] = set()
 
         def collect_graph_names(graph_like) -> None:
-            values = [*graph_like.inputs, *graph_like.outputs]
-            if isinstance(graph_like, ir.Graph):
-                values.extend(graph_like.initializers.values())
+            values = [*graph_like.inputs, *graph_like.outputs, *_initializers_of(graph_like)]
             reserved_value_names.update(value.name for value in values if value.name)
 
         for node in ir.traversal.RecursiveGraphIterator(
@@ -164,11 +162,24 @@ class NameFixPass(ir.passes.InPlacePass):
                 ):
                     modified = True
 
-            if isinstance(graph_like, ir.Graph):
-                # For graphs, also fix initializers
-                for initializer in tuple(graph_like.initializers.values()):
+            # Step 3: Fix initializers (of the graph, or of the graph underlying a function)
+            for initializer in _initializers_of(graph_like):
+                if self._process_value(
+                    initializer,
+                    scoped_used_value_names[-1],
+                    seen_values,
+                    value_counter,
+                    reserved_value_names,
+                ):
+                    modified = True
+
+            # Step 4: Name the values defined by the nodes of this graph before any nested
+            # graph is entered, so that a subgraph sees every name of its enclosing graphs,
+            # including values defined after the node that holds the subgraph.
+            for node in graph_like:
+                for output_value in node.outputs:
                     if self._process_value(
-                        initializer,
+                        output_value,
                         scoped_used_value_names[-1],
                         seen_values,
                         value_counter,
@@ -182,7 +193,7 @@ class NameFixPass(ir.passes.InPlacePass):
             scoped_used_value_names.pop()
             scoped_used_node_names.pop()
 
-        # Step 3: Process all nodes and their values
+        # Step 5: Process all nodes and the values they use
         for node in ir.traversal.RecursiveGraphIterator(
             graph_like, enter_graph=enter_graph, exit_graph=exit_graph
         ):
@@ -341,6 +352,14 @@ class NameFixPass(ir.passes.InPlacePass):
         )
         logger.debug("Renamed node from %s to %s for uniqueness", original_name, node.name)
         return True
+
+
+def _initializers_of(graph_like: ir.Graph | ir.Function) -> tuple[ir.Value, ...]:
+    """Initializers of a graph, or of the graph underlying a function (a snapshot)."""
+    graph = graph_like.graph if isinstance(graph_like, ir.Function) else graph_like
+    if isinstance(graph, ir.Graph):
+        return tuple(graph.initializers.values())
+    return ()
 
 
 def _find_and_record_next_unique_name(
